@@ -44,6 +44,9 @@ PY
 done
 git checkout --ours tools/props.py 2>/dev/null || true
 git checkout --ours MANIFEST.json 2>/dev/null || true
+# the lock file is regenerated from /repo's lock (offline resolution adds the harness-only crates)
+cp /repo/Cargo.lock harness/Cargo.lock && (cd harness && cargo build --offline 2>&1 | tail -1)
+if grep -rIl '^<<<<<<< \|^>>>>>>> ' --exclude-dir=.git --exclude-dir=target --exclude-dir=work --exclude-dir=build . ; then echo 'conflict markers remain in the files above'; exit 1; fi
 git add -A
 git status --short | grep -E "^(UU|AA|DU|UD)" && { echo "unresolved conflicts remain"; exit 1; }
 git commit -qm "merge $P from agent workspace" || true
